@@ -1,6 +1,6 @@
 import json,glob,sys
 pid=sys.argv[1]
-for f in sorted(glob.glob(f'/verif/replays/{pid}/*.json')):
+for f in sorted(glob.glob(f'{base}/{pid}/*.json')):
     d=json.load(open(f))
     w=d['witness']
     print('=====',d['mechanism'], {k:w[k] for k in w if k not in('spec','table')})
